@@ -456,7 +456,7 @@ static int drv_parse2(const Opts &o)
 
 	mark("section 6");
 	// ---------------------------------------------------------------- 6. the high-level parsers on the pool, and random boundary mutations of the pool
-	{ size_t stride = TH ? 1 : 3;
+	{ size_t stride = TH ? 1 : 8;
 	  for (size_t i = 0; i < G.pool.size(); i += stride) { const Oct &raw = G.pool[i].first; int t = raw.empty() ? 0 : ((raw[0] & 0x40) ? (raw[0] & 63) : ((raw[0] >> 2) & 15));
 		if (t == 2) { G.H("signature_parse", real_sigparse, raw); G.H("signatures_parse", real_sigsparse, cat(raw, raw)); }
 		else if (t == 6 || t == 14 || t == 13 || t == 17) { G.H("pubkeyblock_parse", real_pubparse, raw); G.H("keyring_parse", real_ringparse, raw); }
@@ -464,8 +464,8 @@ static int drv_parse2(const Opts &o)
 		else G.H("message_parse", real_msgparse, raw); }
 	  // a public key followed by boundary signatures (the subpacket decoder behind PublicKeyBlockParse)
 	  Oct key = pkt(6, cat(key_head(4, 1), pubmat(1))), uid = pkt(13, fill(5, 0x61));
-	  for (size_t i = 0, k = 0; i < G.pool.size() && k < (TH ? 400u : 60u); i++) { const Oct &raw = G.pool[i].first; if (raw.empty() || (raw[0] & 63) != 2 || !(raw[0] & 0x40)) continue; k++; G.H("pubkeyblock_parse", real_pubparse, cat(key, uid, raw)); }
-	  for (size_t i = 0, k = 0; i < G.pool.size() && k < (TH ? 400u : 40u); i++) { const Oct &raw = G.pool[i].first; int t = raw.empty() ? 0 : (raw[0] & 63); if (!(t == 1 || t == 3 || t == 8 || t == 9 || t == 11 || t == 18 || t == 20)) continue; k++; G.H("message_parse", real_msgparse, cat(pkt(3, Oct{4, 9, 0, 8}), raw)); }
+	  for (size_t i = 0, k = 0; i < G.pool.size() && k < (TH ? 400u : 20u); i++) { const Oct &raw = G.pool[i].first; if (raw.empty() || (raw[0] & 63) != 2 || !(raw[0] & 0x40)) continue; k++; G.H("pubkeyblock_parse", real_pubparse, cat(key, uid, raw)); }
+	  for (size_t i = 0, k = 0; i < G.pool.size() && k < (TH ? 400u : 15u); i++) { const Oct &raw = G.pool[i].first; int t = raw.empty() ? 0 : (raw[0] & 63); if (!(t == 1 || t == 3 || t == 8 || t == 9 || t == 11 || t == 18 || t == 20)) continue; k++; G.H("message_parse", real_msgparse, cat(pkt(3, Oct{4, 9, 0, 8}), raw)); }
 	}
 	mark("7 mutations");
 	static const unsigned char BV[] = { 0, 1, 2, 0x7f, 0x80, 0xbf, 0xc0, 0xc1, 0xdf, 0xe0, 0xe9, 0xfe, 0xff, 191, 192, 223, 224, 254, 20, 21, 32, 33, 34, 5, 4, 3 };
